@@ -789,7 +789,7 @@ func (x *Exec) doCallback(st *State, fr *Frame, fc *FuncContract, callee string,
 	// continuation B: one arbitrary invocation, havoc, return
 	nf := x.newFrame(st, cl.Fn, nil, nil, cl.Binds)
 	nf.eventIdx = -1
-	nf.cbEffect, nf.cbClosure, nf.cbRetTo, nf.cbResTypes, nf.cbCallee = eff, cl, retTo, resTypes, callee
+	nf.cbEffect, nf.cbClosure, nf.cbRetTo, nf.cbResTypes, nf.cbCallee, nf.cbEvent = eff, cl, retTo, resTypes, callee, ev
 	st.frames = append(st.frames, nf)
 	return true
 }
